@@ -7,6 +7,9 @@
   that BBAN — for every registry that names no method for the country, every component strings.
   `generate_validates`: every IBAN `IBAN.generate` returns for such a country also passes national
   validation (`IBAN(text, validate_bban=True)` returns it).
+  `rebuild`: the components read off any compact BBAN of the country's length that passes the
+  national check, handed to `from_components`, give back a BBAN of the same length that agrees
+  with it at every position covered by a component (filler positions become `0`).
 -/
 import SV.Props.C08EndToEnd
 import SV.Props.C09
@@ -310,5 +313,252 @@ example : IBAN.generate (Gen.ctx []) (C06.bytes "ES") (C06.bytes "2100") (C06.by
     (C06.bytes "0418") = .ok (C06.bytes "ES9121000418450200051332") := by decide +kernel
 example : IBAN.new (Gen.ctx []) (C06.bytes "ES9121000418450200051332") false true =
     .ok (C06.bytes "ES9121000418450200051332") := by decide +kernel
+
+/-! ### parse → rebuild -/
+
+/-- The components read off a BBAN: every published component with the text at its position. -/
+def publishedComps (e : Country) (b : Str) : List (Component × Str) :=
+  (e.positions.getD []).map (fun p => (p.1, slice b p.2.start p.2.stop))
+
+theorem lookup_map_snd {α β γ : Type} [BEq α] (f : β → γ) : ∀ (ps : List (α × β)) (k : α),
+    (ps.map (fun p => (p.1, f p.2))).lookup k = (ps.lookup k).map f
+  | [], _ => rfl
+  | (a, v) :: t, k => by
+    simp only [List.map_cons, List.lookup_cons]
+    cases h : k == a
+    · simp only; exact lookup_map_snd f t k
+    · simp only [Option.map_some]
+
+theorem valuesGet_published {e : Country} {b : Str} {k : Component} {r : Range}
+    (hp : publishedAt e k r) : valuesGet (publishedComps e b) k = slice b r.start r.stop := by
+  unfold valuesGet publishedComps publishedAt at *
+  rw [lookup_map_snd (fun r : Range => slice b r.start r.stop), hp]; rfl
+
+theorem valuesGet_unpublished {e : Country} {b : Str} {k : Component}
+    (hp : (e.positions.getD []).lookup k = none) : valuesGet (publishedComps e b) k = [] := by
+  unfold valuesGet publishedComps
+  rw [lookup_map_snd (fun r : Range => slice b r.start r.stop), hp]; rfl
+
+/-- Read off a compact BBAN of the country's length, every component comes back from cleaning and
+    padding unchanged. -/
+theorem padComps_published (X : Ctx) {e : Country} (hW : e.WF) {b : Str} (hc : Compact X.U b)
+    (hb : b.length = e.bbanLength) (k : Component) :
+    padComps X e (publishedComps e b) k =
+      match (e.positions.getD []).lookup k with
+      | some r => slice b r.start r.stop
+      | none => [] := by
+  unfold padComps
+  cases hq : (e.positions.getD []).lookup k with
+  | some r =>
+    have hp : publishedAt e k r := hq
+    have hbd := hW.bounds (k, r) (mem_of_lookup hq)
+    simp only at hbd
+    rw [valuesGet_published hp, clean_of_compact (compact_slice hc _ _), range_of_published hp]
+    exact zfill_exact _ _ (by rw [slice_length (by omega)]; rfl)
+  | none =>
+    rw [valuesGet_unpublished hq, clean_nil, range_unpublished hq]
+    rfl
+
+
+/-- A published field of a BBAN of the country's length has exactly its width. -/
+theorem slice_published_length {e : Country} (hW : e.WF) {b : Str} (hb : b.length = e.bbanLength)
+    {k : Component} {r : Range} (hp : publishedAt e k r) :
+    (slice b r.start r.stop).length = r.stop - r.start := by
+  have hbd := hW.bounds (k, r) (mem_of_lookup hp)
+  simp only at hbd
+  exact slice_length (by omega)
+
+/-- **Parse → rebuild.**  Take any compact BBAN `b` of the country's length that passes the national
+    check, read off every published component, and hand them to `from_components`: the result is a
+    BBAN of the same length that agrees with `b` at every position covered by a component (reserved
+    filler positions become `0`).  `hIs`: an algorithm with its own `validate` that nevertheless
+    computes something (Iceland) has no published check-digit field to write it to. -/
+theorem rebuild (X : Ctx) (hU : X.U.WF) (hT : X.T.WF) {cc : Str} {e : Country}
+    (hl : X.T.lookup cc = some e) (hps : e.positions.isSome = true) (hA : C08.defaultsNat X.A cc)
+    (hR : ∀ x ∈ X.R, x.countryCode = cc → x.checksumAlgo = none)
+    (hIs : ∀ a, X.A.get (defaultKey cc) = some a → a.ref = .nat .is_ →
+      (e.positions.getD []).lookup .nationalChecksumDigits = none)
+    {b : Str} (hc : Compact X.U b) (hlen : b.length = e.bbanLength)
+    (hnat : BBAN.validateNational X cc b = .ok true) :
+    ∃ b', BBAN.fromComponents X cc (publishedComps e b) = .ok b' ∧ b'.length = e.bbanLength ∧
+      ∀ k r, publishedAt e k r → slice b' r.start r.stop = slice b r.start r.stop := by
+  have hW := hT e (Table.lookup_mem hl).1
+  have hpad := padComps_published X hW hc hlen
+  -- no combined-width split: a published branch code is non-empty, an unpublished one has width 0
+  have hns : splitsB X e (publishedComps e b) = false := by
+    unfold splitsB
+    cases hq : (e.positions.getD []).lookup .branchCode with
+    | none =>
+      rw [range_unpublished hq]
+      simp [Range.length]
+    | some r =>
+      have hp : publishedAt e .branchCode r := hq
+      have hbd := hW.bounds (_, r) (mem_of_lookup hq)
+      simp only at hbd
+      rw [valuesGet_published hp, clean_of_compact (compact_slice hc _ _)]
+      have : slice b r.start r.stop ≠ [] := by
+        intro h0
+        have := slice_published_length hW hlen hp
+        rw [h0] at this; simp at this; omega
+      simp [this]
+  have hsc : ∀ k, splitComps X e (publishedComps e b) k = padComps X e (publishedComps e b) k := by
+    intro k; unfold splitComps; rw [hns]; rfl
+  have hval : ∀ k r, publishedAt e k r →
+      splitComps X e (publishedComps e b) k = slice b r.start r.stop := by
+    intro k r hp
+    rw [hsc, hpad]
+    have : (e.positions.getD []).lookup k = some r := hp
+    rw [this]
+  have hval0 : ∀ k, (e.positions.getD []).lookup k = none →
+      splitComps X e (publishedComps e b) k = [] := by
+    intro k hq; rw [hsc, hpad, hq]
+  have hle : ∀ k, (splitComps X e (publishedComps e b) k).length ≤ (e.range k).length := by
+    intro k
+    cases hq : (e.positions.getD []).lookup k with
+    | some r =>
+      have hp : publishedAt e k r := hq
+      rw [hval k r hp, slice_published_length hW hlen hp, range_of_published hp]
+      exact Nat.le_refl _
+    | none => rw [hval0 k hq]; simp
+  have hpn : e.positions.isNone = false := by cases hq : e.positions <;> simp [hq] at hps ⊢
+  rw [fromComponents_eq X hl hpn]
+  rw [if_neg (by have := hle .bankCode; omega), if_neg (by have := hle .branchCode; omega),
+    if_neg (by have := hle .accountCode; omega)]
+  -- what `compute_national_checksum` returns, and that writing it changes nothing
+  have hcomps : ∀ ks : List Component,
+      componentsOf e b ks = ks.map (splitComps X e (publishedComps e b)) := by
+    intro ks
+    rw [componentsOf_map, List.map_map]
+    apply List.map_congr_left
+    intro k _
+    simp only [Function.comp]
+    cases hq : (e.positions.getD []).lookup k with
+    | some r =>
+      have hp : publishedAt e k r := hq
+      rw [getSlice_published hW hlen hp, hval k r hp]
+    | none => rw [range_unpublished hq, getSlice_zero_zero, hval0 k hq]
+  have hcs : ∃ cs, computeNationalChecksum X cc (splitComps X e (publishedComps e b)) = .ok cs ∧
+      ∀ r, publishedAt e .nationalChecksumDigits r → cs ≠ [] → cs = slice b r.start r.stop := by
+    unfold computeNationalChecksum
+    cases ha : X.A.get (cc ++ [colon] ++ strDefault) with
+    | none => exact ⟨[], rfl, fun _ _ h => absurd rfl h⟩
+    | some a =>
+      have ha' : X.A.get (defaultKey cc) = some a := ha
+      obtain ⟨n, hn⟩ := hA a ha'
+      rw [validateNational_dispatch X hl hR, ha'] at hnat
+      simp only [hn, AlgoRef.validate, hcomps] at hnat
+      simp only [hn, AlgoRef.compute]
+      by_cases h1 : n = .czsk
+      · subst h1
+        exact ⟨[], rfl, fun _ _ h => absurd rfl h⟩
+      by_cases h2 : n = .is_
+      · subst h2
+        have hno := hIs a ha' hn
+        -- `validate` succeeded, so `compute` did
+        generalize a.accepts.map (splitComps X e (publishedComps e b)) = L at hnat ⊢
+        simp only [NatAlgo.validate] at hnat
+        cases hcmp : isCompute X.U L with
+        | ok d =>
+          refine ⟨d, ?_, fun r hp => ?_⟩
+          · simp only [NatAlgo.compute, hcmp, Res.translate]
+          · have : (e.positions.getD []).lookup .nationalChecksumDigits = some r := hp
+            rw [hno] at this; cases this
+        | err _ =>
+          exfalso
+          unfold isValidate at hnat
+          split at hnat
+          · rw [hcmp] at hnat; simp [bind, Res.bind] at hnat
+          · simp [Res.bind] at hnat
+        | crash _ =>
+          exfalso
+          unfold isValidate at hnat
+          split at hnat
+          · rw [hcmp] at hnat; simp [bind, Res.bind] at hnat
+          · simp [Res.bind] at hnat
+      -- inherited `validate`: compute == expected
+      have hv : NatAlgo.validate X.U n (a.accepts.map (splitComps X e (publishedComps e b)))
+          (getSlice b (e.range .nationalChecksumDigits).start (some (e.range .nationalChecksumDigits).stop)) =
+          (n.compute X.U (a.accepts.map (splitComps X e (publishedComps e b)))).bind
+            (fun c => .ok (c == getSlice b (e.range .nationalChecksumDigits).start
+              (some (e.range .nationalChecksumDigits).stop))) := by
+        cases n <;> first | rfl | exact absurd rfl h1 | exact absurd rfl h2
+      rw [hv] at hnat
+      cases hcmp : n.compute X.U (a.accepts.map (splitComps X e (publishedComps e b))) with
+      | ok d =>
+        rw [hcmp] at hnat
+        simp only [Res.bind] at hnat
+        refine ⟨d, by simp [Res.translate], fun r hp _ => ?_⟩
+        rw [getSlice_published hW hlen hp] at hnat
+        by_cases hd : (d == slice b r.start r.stop) = true
+        · exact beq_iff_eq.mp hd
+        · simp [hd] at hnat
+      | err _ => rw [hcmp] at hnat; simp [Res.bind] at hnat
+      | crash _ => rw [hcmp] at hnat; simp [Res.bind] at hnat
+  obtain ⟨cs, hcse, hcsv⟩ := hcs
+  rw [hcse]
+  simp only [Res.bind]
+  have hcsC := C08.computeNational_compact X hU hA _ hcse
+  -- every published component of the table that is written is the text of `b` at its position
+  have hc2 : ∀ k r, publishedAt e k r →
+      withChecksum (splitComps X e (publishedComps e b)) cs k = slice b r.start r.stop := by
+    intro k r hp
+    unfold withChecksum
+    by_cases hne : (cs != []) = true
+    · rw [if_pos hne]
+      show (if k = Component.nationalChecksumDigits then cs else _) = _
+      by_cases hk : k = .nationalChecksumDigits
+      · subst hk; rw [if_pos rfl]; exact hcsv r hp (by simpa using hne)
+      · rw [if_neg hk]; exact hval k r hp
+    · rw [if_neg hne]; exact hval k r hp
+  have hc2len : ∀ k r, publishedAt e k r →
+      (withChecksum (splitComps X e (publishedComps e b)) cs k).length = r.stop - r.start := by
+    intro k r hp; rw [hc2 k r hp, slice_published_length hW hlen hp]
+  have hcompact : Compact X.U (overlayAll e (withChecksum (splitComps X e (publishedComps e b)) cs)
+      Component.all (zeros e)) :=
+    compact_overlayAll e _ (compact_withChecksum X hU e _ hcsC) _ _ (compact_zeros hU _)
+  refine ⟨_, rfl, ?_, fun k r hp => ?_⟩
+  · rw [clean_of_compact hcompact]
+    exact (overlayAll_other hW _ hc2len Component.all (zeros e) ⟨0, 0⟩ (by simp [zeros]) (by simp)
+      (fun k _ r' _ => Or.inl (by simp))).1
+  · rw [clean_of_compact hcompact, (C08.placement hW _ hc2len (zeros e) (by simp [zeros]) k r hp).1]
+    exact hc2 k r hp
+
+/-- Decidable form of the hypothesis `hIs` of `rebuild`, for every country of the table at once. -/
+def ownValidateOk (T : Table) (A : AlgoTable) : Bool :=
+  T.all (fun e => match A.get (defaultKey e.code) with
+    | some a => (match a.ref with
+      | .nat .is_ => ((e.positions.getD []).lookup .nationalChecksumDigits).isNone
+      | _ => true)
+    | none => true)
+
+theorem live_own_validate_ok : ownValidateOk Gen.table Gen.algoTable = true := by decide +kernel
+
+/-- Parse → rebuild on the live tables: every country with published positions, every registry that
+    names no method for it, every compact BBAN of the country's length that passes the national
+    check. -/
+theorem live_rebuild (R : Registry) {cc : Str} {e : Country} (hl : Gen.table.lookup cc = some e)
+    (hps : e.positions.isSome = true)
+    (hR : ∀ x ∈ R, x.countryCode = cc → x.checksumAlgo = none)
+    {b : Str} (hc : Compact Gen.unicode b) (hlen : b.length = e.bbanLength)
+    (hnat : BBAN.validateNational (Gen.ctx R) cc b = .ok true) :
+    ∃ b', BBAN.fromComponents (Gen.ctx R) cc (publishedComps e b) = .ok b' ∧ b'.length = e.bbanLength ∧
+      ∀ k r, publishedAt e k r → slice b' r.start r.stop = slice b r.start r.stop := by
+  refine rebuild (Gen.ctx R) C10.unicode_wf C01.table_wf hl hps
+    (C08.defaultsNat_of_B C08.live_defaults_nat cc) hR ?_ hc hlen hnat
+  intro a ha hr
+  have hm := Table.lookup_mem hl
+  have := live_own_validate_ok
+  simp only [ownValidateOk, List.all_eq_true] at this
+  have h1 := this e hm.1
+  rw [hm.2] at h1
+  have ha' : Gen.algoTable.get (defaultKey cc) = some a := ha
+  simp only [ha', hr] at h1
+  simpa using h1
+
+/-! Non-vacuity: the components of a valid Spanish BBAN rebuild it. -/
+example : (match Gen.table.lookup (C06.bytes "ES") with
+    | some e => BBAN.fromComponents (Gen.ctx []) (C06.bytes "ES")
+        (publishedComps e (C06.bytes "21000418450200051332")) == .ok (C06.bytes "21000418450200051332")
+    | none => false) = true := by decide +kernel
 
 end SV.Props.C09
